@@ -426,10 +426,14 @@ func genC18(r *rand.Rand, run int, tier string) *vm.Plan {
 	h.add(vm.Op{K: "azadd", A: az, Az: &content, Perm: r.Perm(len(content.Facts) + len(content.Rules) + len(content.Checks))})
 	snap := h.add(vm.Op{K: "azsave", A: az, Out: h.slot()})
 	// saving is refused once evaluated
-	if r.Intn(2) == 0 {
+	switch r.Intn(3) {
+	case 0:
 		// the original itself, evaluated after the snapshot was taken: member of the tok0 twin group
 		h.add(vm.Op{K: "azauth", A: az, Qs: qs, Name: "tok0"})
-	} else {
+	case 1:
+		// Authorize only (whatever its outcome, also a failed check): no Query that would mark the authorizer evaluated on its own
+		h.add(vm.Op{K: "azauth", A: az})
+	default:
 		h.add(vm.Op{K: "azquery", A: az, Qs: qs[:1]})
 	}
 	h.add(vm.Op{K: "azsave", A: az, Out: h.slot()})
